@@ -120,12 +120,20 @@ def oracle(c, impl):
     return None
 
 
-def classify(c, impl):
+def classify(c, impl, model=None):
     why = oracle(c, impl) or ""
     if " cnt" in why:
         return "CountDuringFlush" if "parked at" in why else "CountIgnoresTypeInMemory"
     if "parked at" in why and (" sel" in why or " rp" in why):
-        return "ReadDuringFlushDropsSegmentFlow"
+        # known only in the states the model marks fragile for that event type (an in-flight segment
+        # without files for the type): the model's own account decides, not the mere fact of a park point
+        m = re.match(r"obs#(\d+) (?:sel|rp)(\d+)", why)
+        if m and model:
+            obs = model.split(" | ")
+            n, u = int(m.group(1)), m.group(2)
+            if n < len(obs) and f"fragile{u}=true" in obs[n]:
+                return "ReadDuringFlushDropsSegmentFlow"
+        return None
     if c.get("kind") == "race" and "obs#0" in why and (" sel" in why or " rp" in why or " cnt" in why):
         return "ReadDuringFlushPoisonsSegmentCache"
     return None
